@@ -360,7 +360,8 @@ func compileStruct(typ *runtime.Type, structName, fieldName string, structTypeTo
 					// recursive definition
 					continue
 				}
-				for k, v := range stDec.fieldMap {
+				for _, v := range stDec.fieldList {
+					k := v.key
 					if tags.ExistsKey(k) {
 						continue
 					}
@@ -387,7 +388,8 @@ func compileStruct(typ *runtime.Type, structName, fieldName string, structTypeTo
 					)
 				}
 				if dec, ok := contentDec.(*structDecoder); ok {
-					for k, v := range dec.fieldMap {
+					for _, v := range dec.fieldList {
+						k := v.key
 						if tags.ExistsKey(k) {
 							continue
 						}
